@@ -12,7 +12,7 @@ Local Open Scope nat_scope.
 (* [imp_loop] is the import loop of eval_env (a named twin of the model's local fix) *)
 Theorem C10_eval_env_S : forall (W : world) (f : nat) (root name : string) (d : envdef),
   eval_env W (S f) root name d =
-    (let root' := if String.eqb root "" then name else root in
+    (let root' := if String.eqb root "" || String.eqb root "<yaml>" then name else root in
      imps_set name {| is_evaluating := true; is_value := None |} ;;;
      r <- imp_loop W (eval_env W f) root' (ed_imports d) [] [] ;;
      let '(base, my) := r in
@@ -24,12 +24,16 @@ Proof. exact eval_env_S. Qed.
 
 (* ---------- 6. the imports table is a memo ---------- *)
 (* an import already in the table and not in progress is not re-evaluated (no load, no event, state untouched) and contributes
-   exactly the stored value to imports.<n> and, when merged, to the base: for every position, listing order and repetition *)
+   exactly the stored value to imports.<n> and, when merged, to the base: for every position, listing order and repetition;
+   an entry without a value is the memo of a FAILED import (eval.go: imported{failed: true}): nothing is loaded, reported,
+   stored or merged *)
 Theorem C10_imports_table_is_memo : forall (W : world) rec r n merge rest base my s i,
   alookup n (imps s) = Some i -> is_evaluating i = false ->
   imp_loop W rec r ((n, merge) :: rest) base my s =
-    let v := match is_value i with Some v => v | None => [] end in
-    imp_loop W rec r rest (if merge then v ++ base else base) (ainsert n v my) s.
+    match is_value i with
+    | Some v => imp_loop W rec r rest (if merge then v ++ base else base) (ainsert n v my) s
+    | None => imp_loop W rec r rest base my s
+    end.
 Proof. exact imports_table_is_memo. Qed.
 
 Theorem C10_imports_cycle_skipped : forall (W : world) rec r n merge rest base my s i,
@@ -96,9 +100,19 @@ Theorem C10_imported_same_everywhere_lit : forall (W : world) (M0 : nat) (rank :
   forall (fuel : nat) (root R : string) (dR : envdef) (X : string) (i : imp_state),
     need M0 rank R <= fuel -> env_of W R = Some dR -> X <> R ->
     alookup X (imps (snd (eval_env W fuel root R dR st0))) = Some i ->
-    exists dX, env_of W X = Some dX /\ i = done (dn W M0 rank X dX) /\
-               forall fuel' root', need M0 rank X <= fuel' -> is_value i = Some (fst (eval_env W fuel' root' X dX st0)).
+    (exists dX, env_of W X = Some dX /\ i = done (dn W M0 rank X dX) /\
+                forall fuel' root', need M0 rank X <= fuel' -> is_value i = Some (fst (eval_env W fuel' root' X dX st0)))
+    \/ (env_of W X = None /\ i = failed_imp).     (* a name the loader does not serve: the remembered failure *)
 Proof. exact imported_same_everywhere_lit. Qed.
+
+(* for a name the loader serves (the hypothesis of C10_memo_eq_pure_statement) the entry is the standalone value *)
+Theorem C10_imported_same_everywhere_lit_served : forall (W : world) (M0 : nat) (rank : string -> nat), lit_world W M0 rank ->
+  forall (fuel : nat) (root R : string) (dR : envdef) (X : string) (dX : envdef) (i : imp_state),
+    need M0 rank R <= fuel -> env_of W R = Some dR -> X <> R -> env_of W X = Some dX ->
+    alookup X (imps (snd (eval_env W fuel root R dR st0))) = Some i ->
+    i = done (dn W M0 rank X dX) /\
+    forall fuel' root', need M0 rank X <= fuel' -> is_value i = Some (fst (eval_env W fuel' root' X dX st0)).
+Proof. exact imported_same_everywhere_lit_served. Qed.
 
 (* state-independence: from ANY admissible incoming state (memo and table entries of other environments), any root, any
    sufficient fuel, eval_env returns the pure denotation *)
@@ -132,7 +146,7 @@ Proof.
   split; [reflexivity|]. split; [intros ? ? []|]. split.
   - intros n i Hn Hi. unfold s_A, set_imps, imps_set in Hn. cbn [snd imps alookup] in Hn.
     destruct (String.eqb n "A") eqn:E; [|discriminate]. apply String.eqb_eq in E. subst n. injection Hn as <-.
-    exists wit_A. split; reflexivity.
+    left. exists wit_A. split; reflexivity.
   - intros n i Hn Hi. unfold s_A, set_imps, imps_set in Hn. cbn [snd imps alookup] in Hn.
     destruct (String.eqb n "A"); [|discriminate]. injection Hn as <-. discriminate.
 Qed.
@@ -145,6 +159,18 @@ Proof.
                   ltac:(vm_compute; lia) ltac:(vm_compute; lia) eq_refl C10_pre_sA (pre_st0 _ _ _ _))).
 Qed.
 
+(* a table in which the first entry of every name other than [g] has a value holds no remembered failure but [g]'s own *)
+Lemma C10_no_failed_entry : forall (tbl : list (string * imp_state)) (X g : string),
+  forallb (fun k => match alookup k tbl with
+                    | Some e => match is_value e with Some _ => true | None => String.eqb k g end
+                    | None => true end) (map fst tbl) = true ->
+  alookup X tbl = Some failed_imp -> X = g.
+Proof.
+  intros tbl X g T Hi. rewrite forallb_forall in T. specialize (T X). rewrite Hi in T. cbn [failed_imp is_value] in T.
+  apply String.eqb_eq, T. clear T. revert Hi. induction tbl as [|[k v] l IH]; [discriminate|]. cbn [alookup map fst].
+  destruct (String.eqb X k) eqn:E; [intros _; left; symmetry; now apply String.eqb_eq|intros H; right; exact (IH H)].
+Qed.
+
 (* D2 is reached twice from G (repetition) and A both directly and through D2 (diamond): every table entry is the standalone value *)
 Example C10_same_everywhere_G : forall X i,
   X <> "G" -> alookup X (imps (snd (eval_env wit_W2 64 "" "G" wit_G st0))) = Some i ->
@@ -152,8 +178,15 @@ Example C10_same_everywhere_G : forall X i,
 Proof.
   intros X i Hne Hi.
   destruct (imported_same_everywhere_lit wit_W2 4 wit_rank C01_lit_world_W2_for_C10 64 "" "G" wit_G X i
-              ltac:(vm_compute; lia) eq_refl Hne Hi) as (dX & HdX & _ & H).
-  exists dX. split; [exact HdX|]. apply H.
-  assert (R : wit_rank X <= 2) by (unfold wit_rank; repeat match goal with |- context [String.eqb X ?k] => destruct (String.eqb X k) end; lia).
-  unfold need. lia.
+              ltac:(vm_compute; lia) eq_refl Hne Hi) as [(dX & HdX & _ & H)|(_ & ->)].
+  - exists dX. split; [exact HdX|]. apply H.
+    assert (R : wit_rank X <= 2) by (unfold wit_rank; repeat match goal with |- context [String.eqb X ?k] => destruct (String.eqb X k) end; lia).
+    unfold need. lia.
+  - (* no import of this world fails: every table entry other than G's own has a value *)
+    exfalso.
+    assert (T : forallb (fun k => match alookup k (imps (snd (eval_env wit_W2 64 "" "G" wit_G st0))) with
+                                  | Some e => match is_value e with Some _ => true | None => String.eqb k "G" end
+                                  | None => true end) (map fst (imps (snd (eval_env wit_W2 64 "" "G" wit_G st0)))) = true)
+      by (vm_compute; reflexivity).
+    exact (Hne (C10_no_failed_entry _ X "G" T Hi)).
 Qed.
